@@ -83,6 +83,10 @@ mod utils;
 /// The value type used by Tera and supporting types (`Key`, `Map`, `Number`, `ValueKind`).
 pub mod value;
 pub(crate) mod vm;
+#[cfg(feature = "verif_hooks")]
+#[doc(hidden)]
+#[allow(missing_docs)]
+pub mod verif_hooks;
 
 pub use crate::tera::{EscapeFn, Tera};
 pub use args::{ArgFromValue, Kwargs};
